@@ -1215,13 +1215,12 @@ class element_if(x12_node):
             if self.usage in ('N', 'S'):
                 return True
             elif self.usage == 'R':
-                if self.seq != 1 or not self.parent.is_composite() or self.parent.usage == 'R':
-                    err_str = 'Mandatory data element "%s" (%s) is missing' % (
-                        self.name, self.refdes)
-                    self._error(errh, err_str, '1', None)
-                    return False
-                else:
-                    return True
+                # (an empty situational composite never gets here: composite_if.is_valid
+                # returns before it looks at the components)
+                err_str = 'Mandatory data element "%s" (%s) is missing' % (
+                    self.name, self.refdes)
+                self._error(errh, err_str, '1', None)
+                return False
         if self.usage == 'N' and elem.get_value() != '':
             err_str = 'Data element "%s" (%s) is marked as Not Used' % (
                 self.name, self.refdes)
